@@ -1,5 +1,9 @@
-"""Per-property check definitions. Each function gets (work, res, tier) and returns nothing;
-it records obligations / violations on `res`."""
+"""Per-property check definitions live in checklib/props/Cxx.py (CHECK, MANIFEST); this module has the
+generic pipeline they are built from and discovers them."""
+import importlib
+import os
+import pkgutil
+
 from . import core, steps
 
 TRUSTED = [
@@ -8,17 +12,27 @@ TRUSTED = [
     "the Go harness + Lean driver line protocol (generators, canonicalisation, parsing)",
     "Go runtime and standard library semantics (slices/append growth, maps, reflect, strconv, sync, time) are modelled, not verified",
 ]
+COMMON_NOTE = ("Trusted: Lean 4.33.0 kernel, axioms propext/Classical.choice/Quot.sound only (audited on every run); "
+               "the hand model is tied to /repo by the per-run correspondence (real code vs compiled Lean model on the same "
+               "operation sequences, white-box observations) and by definitions regenerated from the Go source; "
+               "Go runtime/stdlib semantics are modelled, not verified.")
 
 
-def generic(pid, corrs, thorough_extra=None):
-    """corrs: list of dicts(harness=, area=, name=, gen_args=, run_args=, env=)."""
+def generic(pid, corrs, extra=None, thorough_extra=None):
+    """corrs: list of dicts(harness=, area=, name=, gen_args=, run_args=, env=, race=) for steps.TraceCorr.
+    extra(work, res, tier, proofs_ok) -> bool(concrete violation found): property-specific additional steps."""
     def run(work, res, tier):
         ok = steps.lean_obligations(res, pid)
         concrete = False
         for c in corrs:
             t = steps.TraceCorr(work, res, pid, tier=tier, **c)
-            before = len(res.violations) + len(res.known)
+            before = len(res.violations)
             t.run(proofs_ok=ok)
+            if any(v[1] for v in res.violations[before:]):
+                concrete = True
+        if extra:
+            before = len(res.violations)
+            extra(work, res, tier, ok)
             if any(v[1] for v in res.violations[before:]):
                 concrete = True
         if not ok:
@@ -34,6 +48,17 @@ def generic(pid, corrs, thorough_extra=None):
     return run
 
 
-CHECKS = {
-    "C04": generic("C04", [dict(harness="lists", area="lists")]),
-}
+CHECKS = {}
+MANIFEST_TABLE = {}
+
+
+def _discover():
+    from . import props
+    for m in pkgutil.iter_modules(props.__path__):
+        if m.name.startswith("C"):
+            mod = importlib.import_module("checklib.props." + m.name)
+            CHECKS[m.name] = mod.CHECK
+            MANIFEST_TABLE[m.name] = mod.MANIFEST
+
+
+_discover()
